@@ -136,6 +136,9 @@ Definition check_901 (fs : list field) : verdict :=
   match parse_schema fs with
   | Some (root, sc, FZ dis :: FB doc :: FZ status :: FB out :: FZ refst :: FZ _ :: nil) =>
     let disallow := negb (dis =? 0) in
+    (* whatever the class of the document: an output returned with a nil error must be a well-formed message of the schema
+       for the proved decoder (a key tag followed directly by the value, a stale length, a raw varint ... are caught here) *)
+    if (status =? 0) && match decode_top sc root out with Some _ => false | None => true end then VBad 30 [FB out] else
     match json_parse doc with
     | None =>
       (* not one JSON document (trailing text, syntax error): outside the property; a panic is still reported *)
